@@ -347,6 +347,44 @@ func (e *Engine) sprintf(st *State, args []Value, site ssa.Instruction) Value {
 			}
 		}
 	}
+	// concrete call-through when the format and every argument are concrete
+	if ok && f.conc && len(args) > 1 {
+		if sl, ok := args[1].(*SliceV); ok && sl.len.IsConst() {
+			var goArgs []interface{}
+			all := true
+			for i := 0; i < int(sl.len.Int64()) && all; i++ {
+				p := e.elemPtr(sl.alts, Add(sl.off, BVConst(int64(i), 64)), 1)
+				iv, isI := e.load(st, p, types.NewInterfaceType(nil, nil), site).(*IfaceV)
+				if !isI || len(iv.alts) != 1 || iv.alts[0].typ == nil {
+					all = false
+					break
+				}
+				switch v := iv.alts[0].v.(type) {
+				case *StrV:
+					if !v.conc {
+						all = false
+					} else {
+						goArgs = append(goArgs, v.s)
+					}
+				case *Term:
+					if !v.IsConst() || v.sort.K == KF32 || v.sort.K == KF64 {
+						all = false
+					} else if v.sort.K == KBool {
+						goArgs = append(goArgs, v.b)
+					} else if isSigned(iv.alts[0].typ) {
+						goArgs = append(goArgs, v.Int64())
+					} else {
+						goArgs = append(goArgs, v.Uint64())
+					}
+				default:
+					all = false
+				}
+			}
+			if all {
+				return ConcStr(fmt.Sprintf(f.s, goArgs...))
+			}
+		}
+	}
 	pos := e.prog.Fset.Position(site.Pos()).String()
 	return ConcStr("<sprintf@" + pos + ">")
 }
